@@ -129,6 +129,8 @@ def run(prop, tier, seed, t0):
                 for r in f['rules']:
                     rr = re.sub(r'x\d+$', '', r)
                     cov['rewrite_rules_fired'][rr] = cov['rewrite_rules_fired'].get(rr, 0) + 1
+        for dg in meta.get('degraded', []) or []:
+            cov['trusted_base'].append('verus: %s reduced to its contract for this run (its module does not serve %s and its anchors were lost: %s)' % (dg['id'], prop, dg['why'][:160]))
         for ln, txt in meta['assumption_scan']:
             if cfgname == configs[0]:
                 cov['trusted_base'].append('verus: ' + txt)
